@@ -1,13 +1,14 @@
 #!/bin/bash
 # Sensitivity validation: run checks against a modified copy of /repo (never /repo itself).
 # usage: mutant.sh <name> <patch-file | revert:COMMIT> <check ids...>   (env CASES=N overrides case counts, NOTEST=1 skips the repo suite, SEEDS="1 2 3" repeats every check per seed)
+# env REPO_SRC=<dir>: take the sources from another checkout of /repo (a change that only applies to an older commit)
 # Prints one line per check: "<name> <check> rc=<0|1|2> <seconds>s"; scratch copies are removed afterwards.
 set -u
 NAME="$1"; SRC="$2"; shift 2
 [[ "$SRC" != revert:* ]] && SRC="$(realpath "$SRC")"
 ROOT=${MUTROOT:-/tmp/ppgmut}; S="$ROOT/$NAME"
 rm -rf "$S"; mkdir -p "$S/verif"
-rsync -a --exclude target --exclude .git /repo/ "$S/repo/"
+rsync -a --exclude target --exclude .git "${REPO_SRC:-/repo}/" "$S/repo/"
 if [[ "$SRC" == revert:* ]]; then
     git -C /repo show "${SRC#revert:}" -- src | (cd "$S/repo" && patch -R -p1 -s) || { echo "$NAME: cannot revert"; exit 2; }
 else
